@@ -20,8 +20,9 @@ type gen struct {
 	cb  *carBuilder
 	w   *World
 
-	bigDone bool // at least one big payload was produced
-	usedSig map[solana.Signature]bool
+	hugeDone bool
+	bigDone  bool // at least one big payload was produced
+	usedSig  map[solana.Signature]bool
 }
 
 func mix64(x uint64) uint64 {
@@ -336,6 +337,10 @@ func (g *gen) emitRewards(b *Block) {
 		n := g.between(1, p.MaxRewards)
 		if big = g.wantBig(); big {
 			n = g.between(500, 900) // ~ 60 raw bytes each, poorly compressible
+		} else if p.HugeRewards && !g.hugeDone {
+			g.hugeDone = true
+			big = true
+			n = g.between(22000, 26000)
 		} else if g.chance(0.3) {
 			// steer towards multiple frames: ~45 stored bytes per reward
 			n = g.between(1, 1+p.MaxFrameBytes*12/45)
